@@ -54,6 +54,11 @@ def offset_family(rng, n, nb, fam, amp):
             row = [float(d)] * n
         elif fam == "wholerow":
             row = [float(rng.randint(-int(amp), int(amp))) for _ in range(n)]
+        elif fam == "mixed":
+            # rows with exactly zero, whole-cell and fractional displacement side by side (a zero row
+            # right after a fractional one exercises per-row scratch state in the table builder)
+            row = [rng.choice([0.0, 0.0, float(rng.randint(-int(amp), int(amp))), f32(rng.uniform(-amp, amp)),
+                               f32(rng.uniform(-amp, amp))]) for _ in range(n)]
         elif fam == "frac":
             row = [f32(rng.uniform(-amp, amp)) for _ in range(n)]
         elif fam == "affine":
